@@ -123,11 +123,8 @@ theorem glitch_run (cfg : Cfg) (st : Carrier → Nat) (ok : Carrier → Bool) (i
       | page pgno =>
         have hg2 := hg.2
         simp only [lineCni] at hg2
-        by_cases hb : hasBit s.mask VBI_EVENT_TTX_PAGE = true
-        · have e : rxLine cfg t s (.page pgno) =
-              ({ s with cached := if s.cached.contains pgno then s.cached else pgno :: s.cached }, []) := by
-            simp [rxLine, hb]
-          rw [e]
+        rcases (rxLine_page cfg t s pgno).symm with e | e
+        · rw [e]
           have inv' : GInv st id mask lg { s with cached := if s.cached.contains pgno then s.cached else pgno :: s.cached } :=
             ginv_transport st id mask lg s _ inv rfl rfl rfl
           have r := ih _ lg inv' hreg hg2
@@ -138,8 +135,7 @@ theorem glitch_run (cfg : Cfg) (st : Carrier → Nat) (ok : Carrier → Bool) (i
           split
           · exact hx
           · exact List.mem_cons_of_mem _ hx
-        · have e : rxLine cfg t s (.page pgno) = (s, []) := by simp [rxLine, hb]
-          rw [e]
+        · rw [e]
           have r := ih _ lg inv hreg hg2
           exact ⟨NoNetwork_append NoNetwork_nil r.1, r.2.1, r.2.2⟩
       | vps b =>
